@@ -23,6 +23,7 @@ type c04Rev struct {
 	ID      string `json:"id"`
 	Parent  int    `json:"parent"` // index into Revs, -1: root
 	Deleted bool   `json:"deleted,omitempty"`
+	Big     bool   `json:"big,omitempty"` // body above the inline limit: as a non-winning leaf it is kept in a separate document
 }
 
 type c04Replica struct {
@@ -104,7 +105,7 @@ func c04Generate(seed uint64, tier string, index int) json.RawMessage {
 			id = fmt.Sprintf("%d-%s%d", gen, c04Digests[r.Intn(len(c04Digests))], i)
 		}
 		used[id] = true
-		p.Revs = append(p.Revs, c04Rev{ID: id, Parent: parent, Deleted: r.Chance(180)})
+		p.Revs = append(p.Revs, c04Rev{ID: id, Parent: parent, Deleted: r.Chance(180), Big: r.Chance(350)})
 	}
 	for rep := 0; rep < r.Range(2, 3); rep++ {
 		rp := c04Replica{Tasks: 1}
@@ -511,6 +512,9 @@ func c04Run(env *verifsim.Env, raw json.RawMessage) *verifsim.Violation {
 		if rv.Deleted {
 			body[BodyDeleted] = true
 		}
+		if rv.Big {
+			body["pad"] = strings.Repeat(rv.ID+" ", 60)
+		}
 		_, _, err := coll.PutExistingRevWithBody(ctx, "d", body, history(i), !p.Node.AllowConflicts, ExistingVersionWithUpdateToHLV)
 		rec.End(nil, err)
 		if err == nil {
@@ -569,6 +573,9 @@ func c04Run(env *verifsim.Env, raw json.RawMessage) *verifsim.Violation {
 						body := Body{"tok": rv.ID}
 						if rv.Deleted {
 							body[BodyDeleted] = true
+						}
+						if rv.Big {
+							body["pad"] = strings.Repeat(rv.ID+" ", 60)
 						}
 						_, _, err := coll.PutExistingRevWithBody(ctx, "d", body, history(i), !p.Node.AllowConflicts, ExistingVersionWithUpdateToHLV)
 						rec.End(nil, err)
